@@ -45,7 +45,10 @@ class C12(Prop):
         second = list(enc)
         ctx.rng.shuffle(second)
         enc += second        # the same inputs again in another order (what was encoded before must not matter)
-        return [{"kind": "enc", "items": enc}, {"kind": "dec", "masks": list(range(-2, 301)) + [511, 512, 1000, 65534]}]
+        masks = list(range(-2, 301)) + [511, 512, 1000, 65534]
+        # every input once in the default process environment and once with debug logging switched on for the library
+        return [{"kind": "enc", "items": enc, "env": {}}, {"kind": "dec", "masks": masks, "env": {}},
+                {"kind": "enc", "items": enc, "env": {"debug": True}}, {"kind": "dec", "masks": masks, "env": {"debug": True}}]
 
     def execute(self, scn):
         from aioswitcher.schedule.tools import bit_summary_to_days, weekdays_to_hexadecimal
@@ -173,10 +176,7 @@ def _dates_for(zone: str, ctx: Ctx) -> list[tuple[int, int, int]]:
 
 FAR_BASE = 3551 * 7 * 86400          # 2038-01-20, a whole number of weeks after the epoch: instants of far-future scenarios are counted from it
 
-MALFORMED = ["", ":", "2100", "21", "21:", ":00", "24:00", "23:60", "99:99", "ab:cd", "21:0x", "2a:00", "21:00:33",
-             "21:00:", "21:00:00:00", "-1:00", "21:-5", "21.00", "21;00", "٢١:٠٠"[:0] + "xx:yy", "1e:00", "0x10:00", "21:00pm",
-             "25:61", "100:00", "21:000", "שש:00", "12:3é", "::", "21::00", "21:00:xx", "1:2:3", "+1:00", "1 2:00"]
-LENIENT = ["9:05", "09:5", "9:5", " 09:05", "0:0", "23:5"]
+from ..clockstrings import LENIENT, MALFORMED  # noqa: E402
 
 
 class C11(Prop):
@@ -326,6 +326,8 @@ class C13(Prop):
         y, m, d = scn["date"]
         evs = []
         subsets = [list(c) for r in range(0, 8) for c in itertools.combinations(range(7), r)]
+        # a caller keeps its day sets: one object per subset serves every call of the scenario (a frozenset for some)
+        held = {n: (frozenset if n % 11 == 7 else set)(D[x] for x in days) for n, days in enumerate(subsets)}
         with host_zone(z), frozen(0.0) as clk:
             for (nowmin, startmin) in scn["pairs"]:
                 now = local_instant(z, y, m, d, nowmin // 60, nowmin % 60, scn["sec"])
@@ -336,12 +338,15 @@ class C13(Prop):
                 for n, days in enumerate(subsets):
                     if n % 8 == 3:
                         st, short = short, st          # the same time spelled without leading zeros
-                    ds = {D[x] for x in days}
+                    ds = held[n]
                     if n % 16 == 5:
                         txt = SwitcherSchedule("0", bool(ds), ds, st, "23:59").display
                     else:
                         txt = pretty_next_run(st, ds)
-                    evs.append({"ev": "Next", "zone": rules, "now": now, "start": text(st), "days": days, "text": text(txt)})
+                    after = sorted(x.weekday for x in ds)
+                    evs.append({"ev": "Next", "zone": rules, "now": now, "start": text(st), "days": days, "text": text(txt), "after": after})
+                    if after != sorted(days):            # reported by the specification; the caller repairs its set and goes on
+                        held[n] = (frozenset if n % 11 == 7 else set)(D[x] for x in days)
         return evs
 
     def nontrivial(self, ev):
